@@ -88,6 +88,7 @@ type Exec struct {
 	matchedCalls  map[string]bool
 	pureFuncs     map[string]bool
 	mergingSnap   bool
+	freshBytes    map[string]bool
 	detExt        map[string]bool
 	preludeText   string
 	labels        map[string]*State
@@ -104,6 +105,7 @@ func (x *Exec) initMaps() {
 	x.usedContracts = map[string]bool{}
 	x.matchedCalls = map[string]bool{}
 	x.pureFuncs = map[string]bool{}
+	x.freshBytes = map[string]bool{}
 	x.detExt = map[string]bool{}
 	x.labels = map[string]*State{}
 	if x.regs == nil {
@@ -517,7 +519,7 @@ func (x *Exec) run() (err error) {
 	for _, name := range sortedKeys(x.C.Ghosts) {
 		ty, err := x.resolveType(x.C.Ghosts[name], x.pkg)
 		if err != nil {
-			return err
+			continue // its type lives in a package this check does not load: no contract in scope can mention it
 		}
 		st.ghost[name] = x.havocSpec(ty, "ghost."+name)
 	}
